@@ -141,6 +141,7 @@ func sweepAppendOnly(c *Ctx, cs *vc.Contracts) {
 	sort.Strings(names)
 	var roots []*ssa.Function
 	var synthetic []string
+	foreign := map[string]bool{} // functions whose own contract belongs to another property: only the append-only obligation is this property's
 	for _, n := range names {
 		fn := c.P.Funcs[n]
 		if !pkgs[pkgShort(fn)] || len(fn.Blocks) == 0 || fn.Parent() != nil || vc.AppendShape(fn) < 0 {
@@ -174,6 +175,7 @@ func sweepAppendOnly(c *Ctx, cs *vc.Contracts) {
 			}
 			if !tagged {
 				roots = append(roots, fn)
+				foreign[n] = true
 			}
 			continue
 		}
@@ -186,6 +188,15 @@ func sweepAppendOnly(c *Ctx, cs *vc.Contracts) {
 	for _, r := range res {
 		if r != nil && r.Err != "" {
 			c.Notes = append(c.Notes, "append-only: not verifiable: "+r.Fn+": "+firstLine(r.Err))
+		}
+		if r != nil && foreign[r.Fn] {
+			var keep []*vc.Obligation
+			for _, ob := range r.Obls {
+				if strings.Contains(ob.Name, "appends-only") {
+					keep = append(keep, ob)
+				}
+			}
+			r.Obls = keep
 		}
 	}
 	c.addResults(res)
